@@ -26,6 +26,9 @@ Q(n, d) == <<"c", n, d>>
 F == <<"f">>
 PiX == <<"mul", <<"pi">>, <<"x">>>>
 
+Dec18(a, b) == <<"add", Q(a, 1000000000), <<"div", Q(b, 1000000000), C(1000000000)>>>>      \* a*1e-9 + b*1e-18
+SeluScale == Dec18(1050700987, 355480493)        \* 1.050700987355480493...
+SeluAlpha == Dec18(1673263242, 354377284)        \* 1.673263242354377284...
 \* d/dx of every unary kernel
 Unary == [
   exp      |-> F,
@@ -66,7 +69,12 @@ Unary == [
   coth     |-> <<"neg", <<"div", C(1), <<"sq", <<"sinh", X>>>>>>>>,
   arccsch  |-> <<"neg", <<"div", C(1), <<"mul", <<"abs", X>>, <<"sqrt", <<"add", C(1), <<"sq", X>>>>>>>>>>>>,
   arccoth  |-> <<"div", C(1), <<"sub", C(1), <<"sq", X>>>>>>,
-  sinc     |-> <<"div", <<"sub", <<"mul", PiX, <<"cos", PiX>>>>, <<"sin", PiX>>>>, <<"mul", <<"pi">>, <<"sq", X>>>>>>
+  sinc     |-> <<"div", <<"sub", <<"mul", PiX, <<"cos", PiX>>>>, <<"sin", PiX>>>>, <<"mul", <<"pi">>, <<"sq", X>>>>>>,
+  \* mygrad.nnet.activations
+  sigmoid  |-> <<"mul", F, <<"sub", C(1), F>>>>,
+  \* selu(x) = scale * (x if x > 0 else alpha * (exp(x) - 1)); the two constants to 18 decimals (32-bit-safe pieces)
+  selu     |-> <<"add", <<"mul", SeluScale, <<"gt", X, C(0)>>>>,
+                       <<"mul", <<"mul", SeluScale, SeluAlpha>>, <<"mul", <<"exp", X>>, <<"gt", C(0), X>>>>>>>>
 ]
 \* domain of each kernel: a set of intervals, each <<lo, hi>> in tenths (open ends are approached to within 1/100)
 Dom == [
@@ -82,7 +90,8 @@ Dom == [
   csc |-> {<<-29, -2>>, <<2, 29>>}, sec |-> {<<-14, 14>>}, cot |-> {<<-29, -2>>, <<2, 29>>},
   arccsc |-> {<<-60, -11>>, <<11, 60>>}, arcsec |-> {<<-60, -11>>, <<11, 60>>}, arccot |-> {<<-60, -1>>, <<1, 60>>},
   csch |-> {<<-30, -2>>, <<2, 30>>}, sech |-> {<<-30, 30>>}, coth |-> {<<-30, -2>>, <<2, 30>>},
-  arccsch |-> {<<-60, -1>>, <<1, 60>>}, arccoth |-> {<<-60, -11>>, <<11, 60>>}, sinc |-> {<<-35, -1>>, <<1, 35>>}
+  arccsch |-> {<<-60, -1>>, <<1, 60>>}, arccoth |-> {<<-60, -11>>, <<11, 60>>}, sinc |-> {<<-35, -1>>, <<1, 35>>},
+  sigmoid |-> {<<-30, 30>>}, selu |-> {<<-30, -1>>, <<1, 30>>}
 ]
 \* partial derivatives of the binary kernels
 Binary == [
@@ -122,7 +131,7 @@ EveryUnaryHasDomain == DOMAIN Unary = DOMAIN Dom
 DomainsNonEmpty == row.kind = "unary" => (row.dom # <<>> /\ \A i \in 1..Len(row.dom) : row.dom[i][1] < row.dom[i][2])
 \* kernels defined on both sides of zero are sampled on both sides
 OddDomainsBothSigns == (row.kind = "unary" /\ row.f \in {"cbrt", "reciprocal", "absolute", "csc", "cot", "arccsc", "arcsec",
-                                                         "arccot", "csch", "coth", "arccsch", "arccoth", "sinc"})
+                                                         "arccot", "csch", "coth", "arccsch", "arccoth", "sinc", "selu"})
                        => (\E i \in 1..Len(row.dom) : row.dom[i][2] < 0) /\ (\E i \in 1..Len(row.dom) : row.dom[i][1] > 0)
 ConventionsListed == {c.f : c \in Conventions} = {"absolute", "arcsin", "arccos", "maximum", "minimum", "sinc"}
 
